@@ -27,7 +27,7 @@ PAIRS = [(a, b) for i, a in enumerate(SOURCES) for b in SOURCES[i:]
          and (a, b) != ('app-resource', 'route-resource')]
 REQUIRED_REACH = ['planted:reserved-app-resource', 'planted:reserved-route-resource', 'planted:reserved-url-binding',
                   'planted:mw-without-next', 'planted:next-in-endpoint', 'planted:next-in-render',
-                  'planted:context-outside-render', 'control:accepted'] + \
+                  'planted:context-outside-render', 'control:accepted', 'planted-in-prefix-binding'] + \
                  ['planted:conflict:%s+%s' % p for p in PAIRS]
 NSHARDS = 16
 PROV_ATTR = {'mw-request': ('request', 'provides'), 'mw-endpoint': ('endpoint', 'endpoint_provides'),
@@ -45,7 +45,7 @@ def valid_host(rng):
 def offered_names(cfg):
     s = set(cfg['route']['bindings']) | set(cfg['route']['resources'])
     for l in cfg['levels']:
-        s |= set(l['resources'])
+        s |= set(l['resources']) | set(l.get('prefix_bindings') or [])
     for m in [m for l in cfg['levels'] for m in l['mws']] + cfg['route']['mws']:
         for a in ('provides', 'endpoint_provides', 'render_provides'):
             s |= set(m[a])
@@ -70,6 +70,10 @@ def add_source(rng, cfg, src, name):
     """offer `name` from source kind `src`; returns a label of where it went"""
     nlev = len(cfg['levels'])
     if src == 'url':
+        if nlev > 1 and rng.chance(0.5):
+            k = rng.randrange(nlev - 1)
+            cfg['levels'][k].setdefault('prefix_bindings', []).append(name)
+            return 'url@prefix-of-level%d' % k
         cfg['route']['bindings'].append(name)
         return 'url'
     if src == 'app-resource':
@@ -126,7 +130,7 @@ def plant(rng, host, what):
         label += ':' + name
     elif what == 'reserved-url-binding':
         name = rng.pick(list(di.RESERVED))
-        cfg['route']['bindings'].append(name)
+        add_source(rng, cfg, 'url', name)
         label += ':' + name
     elif what == 'mw-without-next':
         phase = rng.pick(['request', 'endpoint', 'render'])
@@ -199,6 +203,8 @@ def run_shard(sh, spec):
                 sh.hit('planting-ineffective:' + what)
                 continue
             sh.hit('planted:' + what)
+            if 'url@prefix' in label:
+                sh.hit('planted-in-prefix-binding')
             drive(sh, PROPERTY, cfg, 'planted', requests=(), nontrivial=True)
             if rng.chance(0.15):
                 sh.hit('control:accepted')
